@@ -26,6 +26,7 @@ import (
 	"os/exec"
 	"sort"
 	"strings"
+	"sync"
 	"time"
 
 	"github.com/google/uuid"
@@ -198,7 +199,11 @@ type keyInfo struct {
 
 var keyCache = map[int]*keyInfo{}
 
+var keyMu sync.Mutex
+
 func getKey(id int) *keyInfo {
+	keyMu.Lock()
+	defer keyMu.Unlock()
 	if k, ok := keyCache[id]; ok {
 		return k
 	}
@@ -849,16 +854,32 @@ func run(raw json.RawMessage) lib.Case {
 	unstable := false // some recomputation differed: the replay keeps the whole group
 	switch in.Kind {
 	case "rosters":
+		var concNew, concGet [][]string
+		if in.Label == "concurrent" {
+			concNew = concurrentResults(n, 48, 900*time.Millisecond, func(i int) string { return newRosterID(in.Rosters[i]) })
+			concGet = concurrentResults(n, 48, 500*time.Millisecond, func(i int) string { return getRosterID(in.Rosters[i]) })
+		}
 		for i, r := range in.Rosters {
 			runs := []string{first[i], newRosterID(r), fresh[i]}
-			unstable = unstable || !allSame(runs)
 			alt := []string{getRosterID(r)}
+			if concNew != nil {
+				runs = append(runs, concNew[i]...)
+				alt = append(alt, concGet[i]...)
+			}
+			unstable = unstable || !allSame(runs) || !allSame(append([]string{first[i]}, alt...))
 			items[i] = "(" + coqRoster(kt, r) + ", " + coqObs(runs, alt, rosterOracle(r)) + ")"
 		}
 	case "trees":
+		var concTree [][]string
+		if in.Label == "concurrent" {
+			concTree = concurrentResults(n, 32, 300*time.Millisecond, func(i int) string { return newTreeID(&in, in.Trees[i]) })
+		}
 		for i, t := range in.Trees {
 			_, rid := treeRoster(&in, t)
 			runs := []string{first[i], newTreeID(&in, t), fresh[i]}
+			if concTree != nil {
+				runs = append(runs, concTree[i]...)
+			}
 			unstable = unstable || !allSame(runs)
 			ridc := "None"
 			if rid == "bad" {
@@ -869,9 +890,16 @@ func run(raw json.RawMessage) lib.Case {
 			items[i] = "((" + ridc + ", " + coqTree(kt, t.T) + "), " + coqObs(runs, nil, treeOracle(rid, t.T)) + ")"
 		}
 	case "tokens":
+		var concTok [][]string
+		if in.Label == "concurrent" {
+			concTok = concurrentResults(n, 32, 200*time.Millisecond, func(i int) string { f, _ := tokenIDs(&in, i); return f })
+		}
 		for i, t := range in.Tokens {
 			again, second := tokenIDs(&in, i)
 			runs := []string{first[i], again, second, fresh[i]}
+			if concTok != nil {
+				runs = append(runs, concTok[i]...)
+			}
 			unstable = unstable || !allSame(runs)
 			items[i] = fmt.Sprintf("((Tok %s %s %s %s %s %s), %s)", litHex(t[0]), litHex(t[1]), litHex(t[2]), litHex(t[3]), litHex(t[4]), litHex(t[5]),
 				coqObs(runs, nil, tokenOracle(t)))
@@ -1005,6 +1033,53 @@ func run(raw json.RawMessage) lib.Case {
 		c.Obs = o
 	}
 	return c
+}
+
+// concurrentResults: G goroutines compute f(i) for all objects over and over for about
+// the given time (a work budget, not an oracle); returned are, per object, the DISTINCT
+// results seen (a recovered panic is the result "crash").  For a group labelled
+// "concurrent" they are appended to the object's recomputation results: the id of an
+// object must be the same whoever else is computing ids at that moment.
+func concurrentResults(n, goroutines int, budget time.Duration, f func(i int) string) [][]string {
+	sets := make([]map[string]bool, n)
+	for i := range sets {
+		sets[i] = map[string]bool{}
+	}
+	var mu sync.Mutex
+	var wg sync.WaitGroup
+	deadline := time.Now().Add(budget)
+	for g := 0; g < goroutines; g++ {
+		wg.Add(1)
+		go func(g int) {
+			defer wg.Done()
+			local := make([]map[string]bool, n)
+			for i := range local {
+				local[i] = map[string]bool{}
+			}
+			for round := 0; round < 3 || time.Now().Before(deadline); round++ {
+				for k := 0; k < n; k++ {
+					i := (k + g) % n
+					local[i][catch(func() string { return f(i) })] = true
+				}
+			}
+			mu.Lock()
+			for i := range local {
+				for r := range local[i] {
+					sets[i][r] = true
+				}
+			}
+			mu.Unlock()
+		}(g)
+	}
+	wg.Wait()
+	out := make([][]string, n)
+	for i, s := range sets {
+		for r := range s {
+			out[i] = append(out[i], r)
+		}
+		sort.Strings(out[i])
+	}
+	return out
 }
 
 func allSame(l []string) bool {
